@@ -384,6 +384,13 @@ func Enumerate(tier string, seed int64) []*Schema {
 		efs = append(efs, fd(fmt.Sprintf("e%d", i), E(name)))
 	}
 	add(&Schema{Name: "senum", Enums: ens, Records: []*Record{st("Se", efs...)}}, "enums")
+	// 7b. arrays of enums (default, two-byte and eight-byte base; a one-byte base would share the byte heap of the
+	// model with the destination buffer and need the no-alias treatment of byte arrays): the generator counts them in a loop
+	// although their width is fixed
+	add(&Schema{Name: "senarr", Enums: []*Enum{{Name: "Ea", Base: "", Values: []int64{1, 2}}, {Name: "Eb", Base: "uint16", Values: []int64{1, 2}}, {Name: "Ec", Base: "int64", Values: []int64{1, 2}}},
+		Records: []*Record{st("Sea", fd("a", A(E("Ea"))), fd("b", A(E("Eb"))), fd("c", A(E("Ec"))), fd("z", P("uint8")))}}, "enums", "arrays")
+	add(&Schema{Name: "menarr", Enums: []*Enum{{Name: "Ed", Base: "int64", Values: []int64{1, 2}}},
+		Records: []*Record{msg("Mea", fd("c", A(E("Ed"))), fd("z", P("uint16")))}}, "enums", "arrays", "message")
 	// 8. messages: arrays, nested message, deprecated field, something following
 	add(&Schema{Name: "mmix", Records: []*Record{
 		msg("Leaf", fd("x", P("int32")), fd("s", P("string"))),
